@@ -146,6 +146,14 @@ def run(ctx):
             mode = r.get("mode")
             if mode == "ambiguous":
                 continue
+            bnames = r.get("names") or []
+            if names != bnames and sorted(names) == sorted(bnames) and len(set(names)) == len(names):
+                # same columns in a different order: a difference in the result all the same
+                fid = "group-column-order-lineage-dependent" if re.search(r"\bgroup\b", prql) else None
+                ctx.oracle_failure(fid, f"{kind}: the result columns come in a different order ({bnames} vs {names})",
+                                   {"kind": kind, "base": c.prql, "rewritten": prql, "base_columns": bnames, "columns": names})
+                perm = [names.index(n) for n in bnames]
+                rows = [[row[i] for i in perm] for row in rows]
             same = (rows == r["rows"]) if mode == "seq" else (relgen.canon_rows(rows) == relgen.canon_rows(r["rows"]))
             if not same and "WITH " in a["sql"]:
                 sql2 = re.sub(r"\b(\w+) AS \(SELECT", r"\1 AS MATERIALIZED (SELECT", a["sql"])
